@@ -3,6 +3,17 @@
 import json, os, re, glob
 ROOT = os.path.dirname(os.path.dirname(os.path.abspath(__file__)))
 NOTES = {
+ "C22-b": "initially MISSED (no clause made the stream-end arm call address_lookup_finished unconditionally); added: terminal-always-finishes",
+ "C11-b": "fired first only because the parser call moved into a closure; client clause rewritten as a parsed-only source walk",
+ "C18-b": "fired first for the helper extraction alone; rule rewritten as byte-range table agreement",
+ "C21-b": "fired first through an instance count; list order now decided by a sequence abstraction",
+ "C15-b": "initially MISSED (head start was declared undecided); added: head-start outcome function",
+ "C29-b": "initially MISSED (any is_empty() was accepted); the emptiness test must be on the configured service list itself",
+ "C37-b": "initially MISSED in C37 and C38; added: invalidate-unconditional (must-pass-through after an acknowledged update)",
+ "C24-b": "fired first through the accumulator anchor; get_or_insert now modelled as first-wins store",
+ "C27-b": "fires fail-closed (merge without update_relay); report names the mismatched map pairing",
+ "C08-b": "initially MISSED (observation of the token was declared undecided); added: shutdown-arm-unconditional",
+
  "C03-a": "initially MISSED (over-approximate derives-from); rule strengthened with exact copy-chain provenance",
  "C09-a": "initially MISSED; added: a live update must install only a validated configuration",
  "C15-a": "initially MISSED; added: per-attempt relative timeout clause",
